@@ -34,7 +34,8 @@ def main():
     os.makedirs(dst, exist_ok=True)
     for f in ('patch.diff', 'demo.py', 'notes.md'):
         p = os.path.join(src, f)
-        if os.path.exists(p):
+        if os.path.exists(p) and os.path.abspath(p) != os.path.abspath(
+                os.path.join(dst, f)):
             shutil.copy(p, os.path.join(dst, f))
     meta = {'id': seed_id, 'breaks_property': prop, 'source': 'independent '
             'sub-agent given only the property text and a scratch worktree',
